@@ -33,6 +33,9 @@ pub struct Inst {
     pub rub: Vec<isize>,
     pub key: Vec<i64>,
     pub coords: Vec<Vec<isize>>,
+    /// merge kind 1 (orderkind field): chain position and chain successor of every base state
+    pub pos: Vec<i64>,
+    pub up: Vec<u32>,
 }
 
 pub fn parse_inst(line: &str) -> Inst {
@@ -58,6 +61,10 @@ pub fn parse_inst(line: &str) -> Inst {
     if i.domkind == 1 {
         for _ in 0..i.nbase { i.key.push(next() as i64); }
         for _ in 0..i.nbase { let mut c = vec![]; for _ in 0..i.ncoord { c.push(next() as isize); } i.coords.push(c); }
+    }
+    if i.orderkind == 1 {
+        for _ in 0..i.nbase { i.pos.push(next() as i64); }
+        for _ in 0..i.nbase { i.up.push(next() as u32); }
     }
     i
 }
@@ -135,7 +142,11 @@ impl Relaxation for TRelax {
         let mut args: Vec<String> = vec![];
         for s in states { out.extend_from_slice(&s.0); args.push(st_str(s)); }
         out.sort(); out.dedup();
-        let r = St(out);
+        let r = if self.inst.orderkind == 1 {
+            // chain relaxation: the chain successor of the highest merged member over-approximates every merged state
+            let top = out.iter().copied().max_by_key(|b| (self.inst.pos[*b as usize], *b)).unwrap();
+            St(vec![self.inst.up[top as usize]])
+        } else { St(out) };
         self.log(format!("MERGE {} -> {}", args.join(" "), st_str(&r)));
         r
     }
